@@ -61,7 +61,11 @@ class Safety(CContract):
             st = st.assume(A.is_inst(consts["args"], "PyTuple_Type"))
         st = st.assume(*self.invariants(ex, st, consts))
         args = [consts[n] for n in names]
-        return st, args, dict(args=consts, st0=st, witness={n: consts[n] == NULL for n in nullable})
+        info = dict(args=consts, st0=st, witness={n: consts[n] == NULL for n in nullable})
+        if self.convention == "setter":
+            info["concretise"] = lambda m: dict(harness="cvalidators", family="getset_delete", setter=self.qualname,
+                                                deleting=z3.is_true(m.eval(consts["value"] == NULL, model_completion=True)))
+        return st, args, info
 
     def c_post(self, cx, ex, ov, info, ret, st):
         if self.returns == "object":
@@ -181,3 +185,46 @@ for n_, argn in enumerate([(), ("value",), ("obj", "value"), ("obj", "name", "va
     safety("setattr_validate%d" % n_, "validate", invariant=val_inv, props=("C18", "C12"), extra=one_call("py_validate", argn),
            assumptions=("A-TYPEINV: py_validate holds the validator callable",),
            doc="Property validator trampoline: the validator is called exactly once with its registered arity.")
+
+
+# ---------------------------------------------------------------------------------------------------------------------
+# getset descriptors and small methods of CHasTraits / cTrait.  A setter is called with value == NULL for `del obj.attr`.
+# ---------------------------------------------------------------------------------------------------------------------
+def deleting_is_an_error(cx, ex, info, ret, st):
+    a = info["args"]
+    return [("post:deleting-the-attribute-is-refused-not-a-crash", z3.Implies(a["value"] == NULL, z3.And(ret < 0, st.exc != 0)))]
+
+
+hastraits_inv = lambda ex, st, a: [fld(ex, st, "ctrait_dict", a["self"]) != NULL]
+for fn in ("get_has_traits_dict", "get_trait_dict", "get_trait_handler", "get_trait_post_setattr", "get_trait_property_flag",
+           "get_trait_modify_delegate_flag", "get_trait_setattr_original_value_flag", "get_trait_post_setattr_original_value_flag",
+           "get_trait_is_mapped_flag", "_get_trait_comparison_mode_int"):
+    safety(fn, "getter", doc="attribute getter: a new reference, never NULL without an error")
+
+for fn in ("set_has_traits_dict", "set_trait_dict"):
+    safety(fn, "setter", returns="int", extra=deleting_is_an_error,
+           doc="__dict__ setter: only a dict is accepted; `del x.__dict__` (value == NULL) is refused")
+for fn in ("set_trait_modify_delegate_flag", "set_trait_setattr_original_value_flag", "set_trait_post_setattr_original_value_flag",
+           "set_trait_is_mapped_flag", "_set_trait_comparison_mode"):
+    safety(fn, "setter", returns="int", extra=deleting_is_an_error, doc="flag setter: `del trait.flag` (value == NULL) is refused")
+safety("set_trait_handler", "setter", returns="int", doc="handler setter (deleting clears the field)")
+safety("set_trait_post_setattr", "setter", returns="int", extra=deleting_is_an_error,
+       doc="post_setattr setter: a callable or None; deletion is refused")
+
+for fn in ("_has_traits_notifications_enabled", "_has_traits_notifications_vetoed", "_has_traits_init", "_has_traits_inited",
+           "_has_traits_set_inited", "_has_traits_instance_traits", "_trait_default_value"):
+    safety(fn, "noargs", doc="argument-less method: a new reference")
+safety("_trait_get_validate", "noargs",
+       invariant=lambda ex, st, a: [z3.Implies(fld(ex, st, "validate", a["self"]) != 0, fld(ex, st, "py_validate", a["self"]) != NULL)],
+       assumptions=("A-TYPEINV: a compiled validator is installed only together with its descriptor / callable (_trait_set_validate)",),
+       doc="argument-less method: a new reference")
+safety("_has_traits_class_traits", "noargs", invariant=hastraits_inv, assumptions=("A-TYPEINV: CHasTraits objects have a class-trait dict",),
+       doc="argument-less method: a new reference")
+safety("_trait_get_property", "noargs",
+       invariant=lambda ex, st, a: [z3.Implies((fld(ex, st, "flags", a["self"]) & 1) != 0, z3.And(
+           fld(ex, st, "delegate_name", a["self"]) != NULL, fld(ex, st, "delegate_prefix", a["self"]) != NULL,
+           fld(ex, st, "py_validate", a["self"]) != NULL))],
+       assumptions=("A-TYPEINV: the PROPERTY flag is set only together with getter, setter and validator (_trait_set_property)",),
+       doc="property_fields: the (getter, setter, validator) triple of a property trait, None otherwise")
+for fn in ("_has_traits_change_notify", "_has_traits_veto_notify", "_has_traits_notifiers", "_trait_notifiers", "_trait_set_default_value"):
+    safety(fn, "method", doc="method taking an argument tuple: a new reference or NULL with an error")
